@@ -267,7 +267,13 @@ impl<'s, R: de::read::take::Take> DecompressionState<'s, R> {
 				source_reader,
 			} => {
 				let (reader, config) = deserializer_state.into_inner();
-				(source_reader, config, reader.into_inner().into_inner())
+				let cursor = reader.into_inner();
+				if (cursor.position() as usize) < cursor.get_ref().len() {
+					return Err(de::DeError::new(
+						"There's decompressed data left in the block 							after reading the whole avro block out of it",
+					));
+				}
+				(source_reader, config, cursor.into_inner())
 			}
 		})
 	}
